@@ -1479,6 +1479,152 @@ fn stress(kind: Kind, cap: usize, iters: usize, rng: &mut Rng) -> StressOut {
 	out
 }
 
+// ------------------------------------------------------------------------------------------------
+// F22, deterministic: the witness schedule of `unused_full_refuted` / `prompt_removal_refuted`
+// replayed on the implementation with the cfg(kira_verif) yield point between the removal from the
+// arena and the push into the unused-ring (kira::verif::yield_point in resources.rs)
+// ------------------------------------------------------------------------------------------------
+
+struct F22Out {
+	/// outcome of the last callback: [0] ok / [1, panic code]
+	last_cb: Vec<i128>,
+	/// result of the create that runs inside the window: 0 Ok, 1 limit, 2 panic, -1 window not reached
+	create_in_window: i128,
+	count_after: usize,
+	dropped_on_audio: Vec<usize>,
+	audio_panic: Option<String>,
+}
+
+fn f22_replay(kind: Kind) -> F22Out {
+	let slot: RSlot = Arc::new(Mutex::new(None));
+	let mut caps = Capacities::default();
+	let mut main = MainTrackBuilder::new();
+	match kind {
+		Kind::Modulator => caps.modulator_capacity = 1,
+		Kind::SoundMain => main = main.sound_capacity(1),
+		_ => unreachable!(),
+	}
+	let mut mgr = kira::AudioManager::<SBackend>::new(kira::AudioManagerSettings {
+		capacities: caps,
+		main_track_builder: main,
+		internal_buffer_size: 16,
+		backend_settings: SSettings(slot.clone()),
+	})
+	.unwrap();
+	let sh = Arc::new(Shared {
+		main: std::thread::current().id(),
+		next_pid: AtomicUsize::new(0),
+		drops: Mutex::new(vec![]),
+		order: Mutex::new(vec![]),
+		keys: Mutex::new(vec![]),
+		recv: Mutex::new(vec![]),
+		mod_ids: Mutex::new(vec![]),
+		clock_ids: Mutex::new(vec![]),
+		q_mod: Mutex::new(None),
+		q_clock: Mutex::new(None),
+		q_listener: Mutex::new(vec![]),
+	});
+	let create = |mgr: &mut kira::AudioManager<SBackend>| -> Outcome<Option<Arc<AtomicBool>>> {
+		let sh = sh.clone();
+		catch(move || match kind {
+			Kind::Modulator => mgr.add_modulator(ProbeModBuilder { sh: sh.clone() }).ok().map(|(_, _, fin)| fin),
+			_ => {
+				let pid = sh.next_pid.fetch_add(1, Ordering::SeqCst);
+				let fin = Arc::new(AtomicBool::new(false));
+				mgr.play(Boxed(Box::new(ProbeSound { pid, sh: sh.clone(), fin: fin.clone() }))).ok().map(|_| fin)
+			}
+		})
+	};
+	let len_of = |mgr: &mut kira::AudioManager<SBackend>| match kind {
+		Kind::Modulator => mgr.num_modulators(),
+		_ => mgr.main_track().num_sounds(),
+	};
+	// one callback on a fresh "audio" thread
+	let spawn_cb = |slot: RSlot| {
+		std::thread::spawn(move || {
+			catch(|| {
+				let mut g = lk(&slot);
+				let r = g.as_mut().unwrap();
+				let mut o = vec![0.0f32; 8];
+				r.on_start_processing();
+				r.process(&mut o, 2);
+			})
+		})
+	};
+	let mut out = F22Out { last_cb: vec![], create_in_window: -1, count_after: 0, dropped_on_audio: vec![], audio_panic: None };
+	// create 0; callback; drop 0
+	let f0 = match create(&mut mgr) {
+		Outcome::Ok(Some(f)) => f,
+		_ => return out,
+	};
+	let _ = spawn_cb(slot.clone()).join();
+	f0.store(true, Ordering::SeqCst);
+	// the callback that removes 0 is held between the removal and the push
+	let gate = Arc::new((Mutex::new((false, false)), std::sync::Condvar::new())); // (reached, go)
+	{
+		let gate = gate.clone();
+		let main_id = std::thread::current().id();
+		kira::verif::set_yield_hook(Some(Arc::new(move |name: &'static str| {
+			if name != "resource_removed_before_unused_push" || std::thread::current().id() == main_id {
+				return;
+			}
+			let (m, cv) = &*gate;
+			let mut g = lk(m);
+			g.0 = true;
+			cv.notify_all();
+			let t0 = std::time::Instant::now();
+			while !g.1 && t0.elapsed().as_secs() < 5 {
+				g = cv.wait_timeout(g, std::time::Duration::from_millis(50)).map(|r| r.0).unwrap_or_else(|e| e.into_inner().0);
+			}
+		})));
+	}
+	let t = spawn_cb(slot.clone());
+	let reached = {
+		let (m, cv) = &*gate;
+		let mut g = lk(m);
+		let t0 = std::time::Instant::now();
+		while !g.0 && t0.elapsed().as_secs() < 5 {
+			g = cv.wait_timeout(g, std::time::Duration::from_millis(50)).map(|r| r.0).unwrap_or_else(|e| e.into_inner().0);
+		}
+		g.0
+	};
+	// … the gameplay thread runs a whole create in that window
+	let mut f1 = None;
+	if reached {
+		match create(&mut mgr) {
+			Outcome::Ok(Some(f)) => {
+				out.create_in_window = 0;
+				f1 = Some(f);
+			}
+			Outcome::Ok(None) => out.create_in_window = 1,
+			_ => out.create_in_window = 2,
+		}
+	}
+	{
+		let (m, cv) = &*gate;
+		lk(m).1 = true;
+		cv.notify_all();
+	}
+	let _ = t.join();
+	kira::verif::set_yield_hook(None);
+	// drop 1; the next callback has to remove it
+	if let Some(f1) = f1 {
+		f1.store(true, Ordering::SeqCst);
+		match spawn_cb(slot.clone()).join() {
+			Ok(Outcome::Ok(())) => out.last_cb = vec![0],
+			Ok(Outcome::Panic(c)) => {
+				out.last_cb = vec![1, c];
+				out.audio_panic = Some(last_panic());
+			}
+			_ => out.last_cb = vec![2],
+		}
+	}
+	out.count_after = len_of(&mut mgr);
+	out.dropped_on_audio = lk(&sh.drops).iter().filter(|(_, other)| *other).map(|(p, _)| *p).collect();
+	drop(mgr);
+	out
+}
+
 fn parse_ops(s: &str) -> Vec<Op> {
 	s.split(';')
 		.filter_map(|t| {
@@ -1566,6 +1712,47 @@ pub fn run(args: &Args) {
 		}
 		eprintln!("C08 {}: {} cases in {:.1}s", kind.name(), s.model_cases - before, t_kind.elapsed().as_secs_f64());
 	}
+	// (e) F22: the witness schedule of the `_refuted` theorems, replayed deterministically
+	{
+		// ResourceStorage (sounds): the model predicts Panic QueueFull at the last A_push
+		let o = f22_replay(Kind::SoundMain);
+		let term = "CSched false true 1 [0; 2; 3; 4; 5; 7; 6; 6; 100; 4; 5; 0; 2; 3; 7; 5; 7; 6; 6; 101; 4; 5; 7]".to_string();
+		if o.create_in_window == 0 && !o.last_cb.is_empty() {
+			// what the run does at the step where the model stops: [0; summary…] is not observable, a panic is
+			if o.last_cb[0] == 1 {
+				s.case("f22_sound_main", term.clone(), &o.last_cb, Some("f22/sound_main".to_string()));
+			} else {
+				s.eval_only("f22_sound_main_no_panic");
+			}
+		} else {
+			s.notes.push(format!("F22 replay (sounds): window not reached (create in window: {})", o.create_in_window));
+		}
+		if let Some(m) = &o.audio_panic {
+			s.fail(
+				term,
+				format!(
+					"sound_main capacity 1: create 0; callback; finish 0; [callback removes 0 | create 1 | pushes 0 to unused]; finish 1; callback: the audio thread panicked ({m}); payloads dropped on the audio thread: {:?}",
+					o.dropped_on_audio
+				),
+				if m.contains("unused resource producer is full") { Some("unused_full_race") } else { None },
+			);
+		}
+		// SelfReferentialResourceStorage (modulators): no panic, but the marked modulator is not removed
+		let o = f22_replay(Kind::Modulator);
+		s.eval_only("f22_modulator");
+		if o.create_in_window == 0 && o.last_cb == vec![0] && o.count_after != 0 {
+			s.fail(
+				"CSched true false 1 [0; 2; 3; 4; 5; 7; 6; 6; 100; 4; 5; 0; 2; 3; 7; 5; 7; 6; 6; 101; 4; 5; 7; 6; 6]".to_string(),
+				format!(
+					"modulator capacity 1: create 0; callback; finish 0; [callback removes 0 | create 1 | pushes 0 to unused]; finish 1; callback: modulator 1 was present and finished at the start of the callback and is still counted after it (num_modulators = {})",
+					o.count_after
+				),
+				Some("unused_full_race"),
+			);
+		} else if let Some(m) = &o.audio_panic {
+			s.fail("f22 modulator".to_string(), format!("modulator capacity 1, F22 schedule: the audio thread panicked: {m}"), None);
+		}
+	}
 	// (d) free-running two-thread stress
 	let iters = (if args.thorough { 40000 } else { 4000 }) * args.budget_mul as usize;
 	let (mut cb, mut ok, mut lim, mut race, mut reuse) = (0u64, 0u64, 0u64, 0u64, 0u64);
@@ -1580,7 +1767,9 @@ pub fn run(args: &Args) {
 				race += o.limit_len_below;
 				reuse += o.removed_reused;
 				if let Some(what) = o.fail {
-					s.fail(format!("stress {} {} seed {}", kind.name(), cap, args.seed), what, None);
+					// F22: the unused-ring overflow (and the payload the unwinding audio thread drops)
+					let f22 = what.contains("unused resource producer is full");
+					s.fail(format!("stress {} {} seed {}", kind.name(), cap, args.seed), what, if f22 { Some("unused_full_race") } else { None });
 				}
 			}
 		}
